@@ -77,6 +77,16 @@ func craftedShapes() []crafted {
 				{Kind: "index", Edges: []vh.Edge{e("manifest", 5)}}},
 			Ext: []int{2},
 		},
+		{ // ... [foreign, ordinary, foreign, ordinary] and [foreign, foreign, ordinary, ordinary] (as base images of
+			// another operating system have it): ordinary layers behind the second foreign one
+			Name: "foreignmix2",
+			Nodes: []vh.NodeSpec{{}, blob, blob, blob,
+				{Kind: "foreign", Edges: []vh.Edge{}}, {Kind: "foreign", Edges: []vh.Edge{}},
+				{Kind: "manifest", Edges: []vh.Edge{e("config", 1), e("layer", 4), e("layer", 2), e("layer", 5), e("layer", 3)}},
+				{Kind: "manifest", Edges: []vh.Edge{e("config", 1), e("layer", 4), e("layer", 5), e("layer", 2), e("layer", 3)}},
+				{Kind: "index", Edges: []vh.Edge{e("manifest", 6), e("manifest", 7)}}},
+			Ext: []int{3},
+		},
 		{ // nested indexes with a blob listed twice and a shared config
 			Name: "nested",
 			Nodes: []vh.NodeSpec{{}, blob, blob,
